@@ -90,10 +90,13 @@ def sc_op_line(op):
         return 'A %d' % op[1]
     if op[0] == 'get':
         return 'G'
+    if op[0] == 'keep':
+        return 'K'
     return 'T %s' % v_model_to_real(op[1], INV_MODEL_SC)
 
 
-def sc_replay_edges(chk, exe, edges, phases):
+def sc_replay_edges(chk, exe, edges, phases, mode='sc'):
+    """mode 'sc': a SystemClock (K = keepAlive()); 'scloop': a SystemClockLoop without reference clock (K = loop())"""
     init_keys = [key({'ms': p, 'epoch': INV_MODEL_SC, 'prev': 0, 'init': False, 'last': INV_MODEL_SC, 'bw': 0, 'bv': INV_MODEL_SC}) for p in phases]
     paths = paths_to_nodes(edges, init_keys)
     scripts = []
@@ -106,7 +109,7 @@ def sc_replay_edges(chk, exe, edges, phases):
         phase = seq[0]['from']['ms']
         scripts.append(('S @ID@ %d %d' % (BASES[n % len(BASES)], phase), [sc_op_line(x['op']) for x in seq]))
         metas.append(seq)
-    res, crashes = run_driver(exe, 'sc', scripts)
+    res, crashes = run_driver(exe, mode, scripts)
     for c in crashes:
         chk.violation('systemclock:replay-crash', 'driver crashed rc=%s: %s' % (c[1], c[2][-400:]), {'stderr': c[2]})
     nsteps = 0
@@ -122,7 +125,7 @@ def sc_replay_edges(chk, exe, edges, phases):
                 want = ['-', '-'] + want[2:]
             if st != want:
                 hist = ' ; '.join(sc_op_line(x['op']) for x in seq)
-                chk.violation('systemclock:edge:%s' % e['op'][0], 'phase %d base %d: after [%s] the code is in %s, the model in %s ([epoch, prev, init, lastSync, backupWrites, backupVal, reading])' % (
+                chk.violation('systemclock:edge:%s%s' % (e['op'][0], '' if mode == 'sc' else ':via-loop'), ('' if mode == 'sc' else 'SystemClockLoop without reference clock, K = loop(): ') + 'phase %d base %d: after [%s] the code is in %s, the model in %s ([epoch, prev, init, lastSync, backupWrites, backupVal, reading])' % (
                     seq[0]['from']['ms'], BASES[n % len(BASES)], hist, st, want), {'phase': seq[0]['from']['ms'], 'base': BASES[n % len(BASES)], 'ops': [x['op'] for x in seq]})
                 break
     return len(scripts), nsteps
